@@ -20,7 +20,7 @@ func init() {
 		ID: "C18",
 		Explain: "Static necessary conditions for 'heur.SEE(b, m, t) answers whether the minimax over least-valuable-attacker capture sequences on the target square is >= t', decided on a model of the swap loop built from SSA (loop-header phis, test chain, back edges), never from text; all matching is on normalised expressions (conversions dropped, &^ = & ^, swapped/negated comparisons, commutative operands sorted) in which calls of single-block pure chess-3 helpers are replaced by what they return, so helper extraction, hoisting and De Morgan rewrites do not change a verdict. " +
 			"R1: every attack pattern in SEE is intersected with exactly the piece kinds that move that way, pawn attackers use the opposite colour's capture pattern, and the initial attacker set covers both pawn colours, knight, both slider kinds and king. " +
-			"R2: a must-dataflow over one loop iteration shows that a kind is tested only when every strictly cheaper kind (PieceValues read from the literal) is exhausted for the side to move, either by a failed test in this iteration or by a `start` marker value that is stored only where that exhaustion holds and only encodes kinds whose attacker set cannot grow by x-ray; Pawn..Queen are all tested; the king is decided last through `attackers & occ &^ Colors[stm]`; a back edge without capture is dead. " +
+			"R2: one loop iteration is simulated along every path for every value the per-side marker can hold (its loads, locals fed from it, stores and all comparisons among them evaluated concretely, so switch/fallthrough, if-chains over a `phase` local and range tests read the same); on every arrival a kind is tested only when every strictly cheaper kind (PieceValues read from the literal) is exhausted for the side to move, either by a failed test in this iteration or by a `start` marker value that is stored only where that exhaustion holds and only encodes kinds whose attacker set cannot grow by x-ray; Pawn..Queen are all tested; the king is decided last through `attackers & occ &^ Colors[stm]`; a back edge without capture is never taken for any marker value. " +
 			"R3: each capture branch subtracts a value equal to PieceValues of the tested kind from the running balance, removes exactly the lowest bit of the tested set from the occupancy, leaves early iff balance < parity (0 for the defender's turn, 1 for the attacker's) returning the parity's verdict; parity flips once per capture. " +
 			"R4: after a Pawn/Bishop/Queen capture diagonal sliders, after a Rook/Queen capture orthogonal sliders are re-read from the target square with the updated occupancy and or-ed to the carried set; every selection and the king test mask the attacker set with the current occupancy. " +
 			"R5: the mover leaves the occupancy before the first attacker computation, an en-passant victim leaves it at CaptureSq; SEE returns false before the loop iff PieceValues[piece on CaptureSq] + promoVal - threshold < 0 and true iff PieceValues[mover] - PieceValues[captured] + threshold <= 0 (the loop needs a positive balance on entry), the balance entering the loop is that same risk-minus-gain term, promoVal = PieceValues[promo]-PieceValues[Pawn] only for promotions; the first reply is by the opponent and sides alternate. " +
@@ -778,6 +778,17 @@ func (m *c18Model) occEval(e *c18E, depth int) ([]c18OccAlt, bool) {
 	switch e.op {
 	case "or":
 		ls := e.orLeaves()
+		// `| 1<<To()` only adds the target square: neither the lookups from it nor attackers & occ see that bit
+		var rest []*c18E
+		for _, l := range ls {
+			if rs, ok := m.bitRoles(l); !ok || len(rs) != 1 || rs[0] != "to" {
+				rest = append(rest, l)
+			}
+		}
+		if len(rest) == 1 && len(ls) > 1 {
+			return m.occEval(rest[0], depth+1)
+		}
+		ls = rest
 		if len(ls) == 2 && ls[0].op == "colors" && ls[1].op == "colors" && ls[0].a[0].op == "const" && ls[1].a[0].op == "const" &&
 			ls[0].a[0].k+ls[1].a[0].k == 1 && ls[0].a[0].k*ls[1].a[0].k == 0 {
 			return []c18OccAlt{{removed: map[string]bool{}}}, true
@@ -1101,60 +1112,60 @@ func (m *c18Model) r1init(c *Ctx) {
 
 type c18MStore struct {
 	c   int64
-	b   *ssa.BasicBlock // nil: initial value stored before the loop
+	in  ssa.Instruction // nil: initial value stored before the loop
 	pos token.Pos
-}
-
-type c18Case struct {
-	k    int64
-	succ int // successor index taken when marker == k
 }
 
 type c18Marker struct {
 	alloc   *ssa.Alloc
-	cases   map[*ssa.BasicBlock]c18Case
 	stores  []c18MStore
 	problem string
 	probPos token.Pos
 	fail    bool
 }
 
+// isMarkerAddr: v addresses an element of the marker array; own = it is the element of the colour
+// whose attackers are selected in this iteration.
+func (m *c18Model) isMarkerAddr(mk *c18Marker, v ssa.Value) (is, own bool) {
+	ia, ok := v.(*ssa.IndexAddr)
+	if !ok || mk.alloc == nil || ia.X != ssa.Value(mk.alloc) {
+		return false, false
+	}
+	return true, c18Same(m.x(ia.Index), m.stmE)
+}
+
+// findMarker: the per-side marker is the one local array of SEE that is indexed, inside the loop, by
+// the colour whose attackers are selected (or the other colour). How its value steers the chain is not
+// read off the syntax (switch, if-chain, a `phase` local fed from it, ...) but simulated, see simulate.
 func (m *c18Model) findMarker() *c18Marker {
-	mk := &c18Marker{cases: map[*ssa.BasicBlock]c18Case{}}
+	mk := &c18Marker{}
 	bad := func(fail bool, pos token.Pos, f string, a ...any) {
 		if mk.problem == "" {
 			mk.problem, mk.probPos, mk.fail = fmt.Sprintf(f, a...), pos, fail
 		}
 	}
+	other, _ := c18FlipOf(m.stmE)
 	for _, b := range m.fn.Blocks {
-		iff, ok := c18Last(b).(*ssa.If)
-		if !ok || !m.H.Dominates(b) {
+		if !m.H.Dominates(b) {
 			continue
 		}
-		ce := m.x(iff.Cond)
-		if (ce.op != "eq" && ce.op != "ne") || len(ce.a) != 2 {
-			continue
-		}
-		el, k := ce.a[0], ce.a[1]
-		if el.op != "elem" {
-			el, k = k, el
-		}
-		al, isAl := el.v.(*ssa.Alloc)
-		if el.op != "elem" || k.op != "const" || !isAl || al.Parent() != m.fn {
-			continue
-		}
-		if mk.alloc != nil && mk.alloc != al {
-			bad(false, c18Pos(iff), "two different local arrays steer the capture loop")
-			continue
-		}
-		mk.alloc = al
-		succ := 0
-		if ce.op == "ne" {
-			succ = 1
-		}
-		mk.cases[b] = c18Case{k.k, succ}
-		if !c18Same(el.a[0], m.stmE) {
-			bad(true, c18Pos(iff), "the marker is read for a colour other than the one whose attackers are selected")
+		for _, in := range b.Instrs {
+			ia, ok := in.(*ssa.IndexAddr)
+			if !ok {
+				continue
+			}
+			al, ok := ia.X.(*ssa.Alloc)
+			if !ok {
+				continue
+			}
+			if ix := m.x(ia.Index); !c18Same(ix, m.stmE) && !(other != nil && c18Same(ix, other)) {
+				continue
+			}
+			if mk.alloc != nil && mk.alloc != al {
+				bad(false, ia.Pos(), "two different local arrays are indexed by the side to move inside the capture loop")
+				continue
+			}
+			mk.alloc = al
 		}
 	}
 	if mk.alloc == nil {
@@ -1195,21 +1206,26 @@ func (m *c18Model) findMarker() *c18Marker {
 			}
 			initFrom(sa, x.Pos())
 		case *ssa.IndexAddr:
+			_, own := m.isMarkerAddr(mk, x)
+			inLoop := m.H.Dominates(x.Block())
 			for _, r2 := range *x.Referrers() {
 				switch y := r2.(type) {
-				case *ssa.UnOp:
 				case *ssa.DebugRef:
+				case *ssa.UnOp:
+					if inLoop && !own {
+						bad(true, y.Pos(), "the marker is read for a colour other than the one whose attackers are selected")
+					}
 				case *ssa.Store:
 					k, isc := constOf(y.Val)
 					if y.Addr != ssa.Value(x) || !isc {
 						bad(false, y.Pos(), "marker element receives a non-constant value")
 						continue
 					}
-					if m.H.Dominates(y.Block()) {
-						if !c18Same(m.x(x.Index), m.stmE) {
+					if inLoop {
+						if !own {
 							bad(true, y.Pos(), "marker value %s is stored for a colour other than the one whose attackers were just examined: the other side's pieces of a cheaper kind are skipped although they were never looked at", m.pcs[k])
 						}
-						mk.stores = append(mk.stores, c18MStore{c: k, b: y.Block(), pos: y.Pos()})
+						mk.stores = append(mk.stores, c18MStore{c: k, in: y, pos: y.Pos()})
 					} else {
 						mk.stores = append(mk.stores, c18MStore{c: k, pos: y.Pos()})
 					}
@@ -1224,59 +1240,205 @@ func (m *c18Model) findMarker() *c18Marker {
 	return mk
 }
 
-// flow: must-facts "kinds exhausted for the side to move" at entry of every loop-body block.
-func (m *c18Model) flow(mk *c18Marker, exh map[int64]uint) map[*ssa.BasicBlock]uint {
-	const top = ^uint(0)
-	in := map[*ssa.BasicBlock]uint{}
-	for _, b := range m.fn.Blocks {
-		if m.H.Dominates(b) {
-			in[b] = top
-		}
-	}
-	in[m.H] = 0
+// c18Sim is the result of simulating one loop iteration for every value the marker can hold.
+type c18Sim struct {
+	in      map[*ssa.BasicBlock]uint // kinds exhausted for the side to move on EVERY arrival at the block (absent: never reached)
+	store   map[ssa.Instruction]uint // the same at in-loop marker stores
+	back    map[int]map[int64]bool   // H.Preds index -> marker values under which that back edge is taken
+	decided map[*ssa.BasicBlock]bool // Ifs whose condition was computed from the marker value on every visit
+	guessed map[*ssa.BasicBlock]bool // Ifs (other than tests) explored both ways at least once
+	aborted bool                     // inner cycle or budget exceeded
+	steps   int
+}
+
+const c18NoMarker = int64(-1 << 40)
+
+// simulate walks every path of one iteration starting at the loop header, once per marker value k
+// with the kinds exh[k] known exhausted. Loads of the marker, phis fed from them or from constants
+// (a `phase` local), stores to the marker and every comparison among such values are evaluated
+// concretely along the path, so a switch with fallthrough, a tagless switch, an if-chain over a local
+// copy or range tests all give the same walk. Piece-kind tests fork: the empty edge adds the kind.
+func (m *c18Model) simulate(mk *c18Marker, exh map[int64]uint, ks []int64) *c18Sim {
+	s := &c18Sim{in: map[*ssa.BasicBlock]uint{}, store: map[ssa.Instruction]uint{}, back: map[int]map[int64]bool{},
+		decided: map[*ssa.BasicBlock]bool{}, guessed: map[*ssa.BasicBlock]bool{}}
 	testOf := map[*ssa.BasicBlock]*c18Test{}
 	for _, t := range m.tests {
 		testOf[t.iff.Block()] = t
 	}
-	for changed := true; changed; {
-		changed = false
-		for _, b := range m.fn.Blocks {
-			if _, ok := in[b]; !ok || b == m.H {
-				continue
+	meet := func(mp map[*ssa.BasicBlock]uint, b *ssa.BasicBlock, f uint) {
+		if old, ok := mp[b]; ok {
+			f &= old
+		}
+		mp[b] = f
+	}
+	type state struct {
+		facts  uint
+		cur    int64 // current marker value of the side to move, c18NoMarker when unknown
+		vals   map[ssa.Value]int64
+		onPath map[*ssa.BasicBlock]bool
+	}
+	val := func(st *state, v ssa.Value) (int64, bool) {
+		v = stripConv(v)
+		if k, ok := constOf(v); ok {
+			return k, true
+		}
+		k, ok := st.vals[v]
+		return k, ok
+	}
+	var cond func(st *state, v ssa.Value) (bool, bool)
+	cond = func(st *state, v ssa.Value) (bool, bool) {
+		switch x := v.(type) {
+		case *ssa.UnOp:
+			if x.Op == token.NOT {
+				r, ok := cond(st, x.X)
+				return !r, ok
 			}
-			acc := top
-			for _, pr := range b.Preds {
-				pin, ok := in[pr]
-				if !ok {
-					acc = 0
-					continue
-				}
-				if pin == top {
-					continue
-				}
-				out := pin
-				if t := testOf[pr]; t != nil && b == t.els && b != t.taken {
-					out |= 1 << uint(t.kind)
-				}
-				if cs, ok := mk.cases[pr]; ok && pr.Succs[cs.succ] == b && pr.Succs[1-cs.succ] != b {
-					out |= exh[cs.k]
-				}
-				acc &= out
+		case *ssa.BinOp:
+			a, oka := val(st, x.X)
+			b, okb := val(st, x.Y)
+			if !oka || !okb {
+				return false, false
 			}
-			if acc != in[b] {
-				in[b] = acc
-				changed = true
+			switch x.Op {
+			case token.EQL:
+				return a == b, true
+			case token.NEQ:
+				return a != b, true
+			case token.LSS:
+				return a < b, true
+			case token.LEQ:
+				return a <= b, true
+			case token.GTR:
+				return a > b, true
+			case token.GEQ:
+				return a >= b, true
+			}
+		}
+		return false, false
+	}
+	var k0 int64
+	var walk func(b, from *ssa.BasicBlock, st state)
+	walk = func(b, from *ssa.BasicBlock, st state) {
+		if s.steps++; s.steps > 200000 {
+			s.aborted = true
+			return
+		}
+		if b == m.H && from != nil {
+			for i, pr := range m.H.Preds {
+				if pr == from {
+					if s.back[i] == nil {
+						s.back[i] = map[int64]bool{}
+					}
+					s.back[i][k0] = true
+				}
+			}
+			return
+		}
+		if st.onPath[b] {
+			s.aborted = true
+			return
+		}
+		// private copies for this path
+		nv := make(map[ssa.Value]int64, len(st.vals)+4)
+		for k, v := range st.vals {
+			nv[k] = v
+		}
+		np := make(map[*ssa.BasicBlock]bool, len(st.onPath)+1)
+		for k := range st.onPath {
+			np[k] = true
+		}
+		np[b] = true
+		st.vals, st.onPath = nv, np
+		meet(s.in, b, st.facts)
+		// phis are evaluated simultaneously against the edge taken
+		if from != nil {
+			idx := -1
+			for i, pr := range b.Preds {
+				if pr == from {
+					idx = i
+				}
+			}
+			upd := map[ssa.Value]int64{}
+			var phis []*ssa.Phi
+			for _, in := range b.Instrs {
+				if ph, ok := in.(*ssa.Phi); ok && idx >= 0 {
+					phis = append(phis, ph)
+					if k, ok := val(&st, ph.Edges[idx]); ok {
+						upd[ph] = k
+					}
+				}
+			}
+			for _, ph := range phis {
+				delete(st.vals, ph)
+			}
+			for ph, k := range upd {
+				st.vals[ph] = k
+			}
+		}
+		for _, in := range b.Instrs {
+			switch x := in.(type) {
+			case *ssa.UnOp:
+				if is, own := m.isMarkerAddr(mk, x.X); is && x.Op == token.MUL {
+					if own && st.cur != c18NoMarker {
+						st.vals[x] = st.cur
+					} else {
+						delete(st.vals, x)
+					}
+				}
+			case *ssa.Store:
+				if is, own := m.isMarkerAddr(mk, x.Addr); is && own {
+					if old, ok := s.store[x]; ok {
+						s.store[x] = old & st.facts
+					} else {
+						s.store[x] = st.facts
+					}
+					if k, ok := constOf(x.Val); ok {
+						st.cur = k
+					} else {
+						st.cur = c18NoMarker
+					}
+				}
+			case *ssa.If:
+				if t := testOf[b]; t != nil {
+					walk(t.taken, b, st)
+					st.facts |= 1 << uint(t.kind)
+					walk(t.els, b, st)
+					return
+				}
+				if r, ok := cond(&st, x.Cond); ok {
+					if _, g := s.guessed[b]; !g {
+						s.decided[b] = true
+					}
+					if r {
+						walk(b.Succs[0], b, st)
+					} else {
+						walk(b.Succs[1], b, st)
+					}
+					return
+				}
+				s.guessed[b] = true
+				delete(s.decided, b)
+				walk(b.Succs[0], b, st)
+				walk(b.Succs[1], b, st)
+				return
+			case *ssa.Jump:
+				walk(b.Succs[0], b, st)
+				return
 			}
 		}
 	}
-	return in
+	for _, k := range ks {
+		k0 = k
+		walk(m.H, nil, state{facts: exh[k], cur: k, vals: map[ssa.Value]int64{}, onPath: map[*ssa.BasicBlock]bool{}})
+	}
+	return s
 }
 
 func (m *c18Model) r2(c *Ctx) {
 	const rule = "C18.R2"
 	mk := m.findMarker()
 	if mk == nil {
-		mk = &c18Marker{cases: map[*ssa.BasicBlock]c18Case{}}
+		mk = &c18Marker{}
 	}
 	// kinds whose attacker set cannot grow while pieces leave the board (never refreshed by x-ray)
 	nonGrowing := uint(0)
@@ -1285,25 +1447,41 @@ func (m *c18Model) r2(c *Ctx) {
 			nonGrowing |= 1 << uint(k)
 		}
 	}
-	// greatest fixpoint: marker value c stands for the kinds exhausted at every store of c
-	exh := map[int64]uint{}
-	for _, s := range mk.stores {
-		exh[s.c] = nonGrowing
+	// the values the marker can hold at the top of an iteration: every constant ever stored into it
+	var ks []int64
+	seen := map[int64]bool{}
+	for _, st := range mk.stores {
+		if !seen[st.c] {
+			ks = append(ks, st.c)
+		}
+		seen[st.c] = true
 	}
-	var in map[*ssa.BasicBlock]uint
+	sort.Slice(ks, func(i, j int) bool { return ks[i] < ks[j] })
+	if len(ks) == 0 {
+		ks = []int64{c18NoMarker}
+	}
+	// greatest fixpoint: marker value c stands for the (non-growing) kinds exhausted at every store of c
+	exh := map[int64]uint{}
+	for _, st := range mk.stores {
+		exh[st.c] = nonGrowing
+	}
+	var sim *c18Sim
 	for iter := 0; iter < 16; iter++ {
-		in = m.flow(mk, exh)
+		sim = m.simulate(mk, exh, ks)
 		nw := map[int64]uint{}
 		same := true
-		for _, s := range mk.stores {
+		for _, st := range mk.stores {
 			v := uint(0)
-			if s.b != nil {
-				v = in[s.b] & nonGrowing
+			if st.in != nil {
+				v = nonGrowing
+				if f, ok := sim.store[st.in]; ok {
+					v = f & nonGrowing
+				}
 			}
-			if old, ok := nw[s.c]; ok {
+			if old, ok := nw[st.c]; ok {
 				v &= old
 			}
-			nw[s.c] = v
+			nw[st.c] = v
 		}
 		for k, v := range nw {
 			same = same && exh[k] == v
@@ -1312,6 +1490,7 @@ func (m *c18Model) r2(c *Ctx) {
 			break
 		}
 	}
+	factsAt := func(b *ssa.BasicBlock) (uint, bool) { f, ok := sim.in[b]; return f, ok }
 	// king tests: X &^ Colors[stm] != 0
 	type kingTest struct {
 		iff   *ssa.If
@@ -1322,9 +1501,6 @@ func (m *c18Model) r2(c *Ctx) {
 	understood := map[*ssa.BasicBlock]bool{m.H: true}
 	for _, t := range m.tests {
 		understood[t.iff.Block()] = true
-	}
-	for b := range mk.cases {
-		understood[b] = true
 	}
 	for _, b := range m.fn.Blocks {
 		iff, ok := c18Last(b).(*ssa.If)
@@ -1341,10 +1517,15 @@ func (m *c18Model) r2(c *Ctx) {
 			}
 		}
 	}
-	// branches of the chain this rule cannot read turn a would-be violation into "undecided"
+	// branches of the chain this rule cannot read turn a would-be violation into "undecided":
+	// an If reached by the simulation, outside every capture branch, that is neither a test, the king
+	// test nor a dispatch computed from the marker value
 	opaque := 0
 	for _, b := range m.fn.Blocks {
-		if _, ok := c18Last(b).(*ssa.If); !ok || !m.H.Dominates(b) || understood[b] {
+		if _, ok := c18Last(b).(*ssa.If); !ok || !m.H.Dominates(b) || understood[b] || sim.decided[b] {
+			continue
+		}
+		if _, reached := sim.in[b]; !reached {
 			continue
 		}
 		inBranch := false
@@ -1356,7 +1537,7 @@ func (m *c18Model) r2(c *Ctx) {
 		}
 	}
 	viol := func(key string, pos token.Pos, f string, a ...any) {
-		if opaque > 0 || (mk.problem != "" && !mk.fail) {
+		if opaque > 0 || sim.aborted || (mk.problem != "" && !mk.fail) {
 			c.Undec(rule, key, pos, "%s [not certain: the capture chain contains %d branch(es) / marker uses this rule cannot read]", fmt.Sprintf(f, a...), opaque)
 		} else {
 			c.Fail(rule, key, pos, f, a...)
@@ -1365,13 +1546,18 @@ func (m *c18Model) r2(c *Ctx) {
 	// (a) every kind is tried only after all strictly cheaper kinds are exhausted
 	tested, all := uint(0), uint(0b111110)
 	for _, t := range m.tests {
-		tested |= 1 << uint(t.kind)
-		need, have := m.kindsBelow(t.kind), in[t.iff.Block()]
-		if t.kind < 1 || t.kind > 5 {
+		need := m.kindsBelow(t.kind)
+		have, reached := factsAt(t.iff.Block())
+		switch {
+		case t.kind < 1 || t.kind > 5:
 			c.Undec(rule, "order:"+t.name, c18Pos(t.iff), "a %s test inside the capture chain is not part of the understood shape (the king is expected to be decided by the no-enemy-attacker test)", t.name)
-		} else if need&^have == 0 {
+		case !reached:
+			c.OkTrivial(rule, "order:"+t.name, c18Pos(t.iff), "the %s test is not reachable for any value the marker can hold", t.name)
+		case need&^have == 0:
+			tested |= 1 << uint(t.kind)
 			c.Ok(rule, "order:"+t.name, c18Pos(t.iff), "%s (value %d) is tried only where %s are exhausted for the side to move (cheaper kinds: %s)", t.name, m.val[t.kind], m.kindSet(have), m.kindSet(need))
-		} else {
+		default:
+			tested |= 1 << uint(t.kind)
 			viol("order:"+t.name, c18Pos(t.iff), "%s (value %d) can be chosen as capturer although %s (cheaper) may still attack for the side to move — excluded neither by a failed test in this iteration nor by a `start` marker that is stored only where that kind is exhausted for good: the exchange is not played least-valuable-attacker first", t.name, m.val[t.kind], m.kindSet(need&^have))
 		}
 	}
@@ -1384,7 +1570,7 @@ func (m *c18Model) r2(c *Ctx) {
 	// (b) king last, masked, verdict
 	for _, k := range kings {
 		pos := c18Pos(k.iff)
-		if have := in[k.iff.Block()]; all&^have == 0 {
+		if have, reached := factsAt(k.iff.Block()); !reached || all&^have == 0 {
 			c.Ok(rule, "king-last", pos, "the enemy-attackers-remain test is reached only when Pawn..Queen are exhausted for the side to move")
 		} else {
 			viol("king-last", pos, "the king decision is reachable while %s of the side to move may still attack", m.kindSet(all&^have))
@@ -1427,48 +1613,39 @@ func (m *c18Model) r2(c *Ctx) {
 	default:
 		c.Ok(rule, "marker-side", mk.alloc.Pos(), "the per-side marker is read and stored for the colour whose attackers are selected, with constants only")
 	}
-	cases, seen := map[int64]bool{}, map[int64]bool{}
-	for _, cs := range mk.cases {
-		cases[cs.k] = true
-	}
-	for _, s := range mk.stores {
-		if seen[s.c] {
-			continue
-		}
-		seen[s.c] = true
-		if cases[s.c] {
-			c.Ok(rule, "marker:"+m.pcs[s.c], s.pos, "marker value %s has a case in the dispatch and stands for exhaustion of %s", m.pcs[s.c], m.kindSet(exh[s.c]))
-		} else {
-			viol("marker:"+m.pcs[s.c], s.pos, "marker value %s is stored but the dispatch has no case for it: the iteration flips sides and parity without any capture", m.pcs[s.c])
+	// (d) an iteration that flips sides and parity must make a capture: a back edge not owned by a
+	// capture branch may not be taken for any value the marker can hold
+	owned := map[int]bool{}
+	for _, t := range m.tests {
+		for _, j := range t.backs {
+			owned[j] = true
 		}
 	}
-	// (d) a back edge without a capture must be dead (needs a marker value that is never stored)
+	idle := map[int64]token.Pos{}
 	for _, i := range m.backIx {
-		owned := false
-		for _, t := range m.tests {
-			for _, j := range t.backs {
-				owned = owned || i == j
-			}
-		}
-		if owned {
+		if owned[i] {
 			continue
 		}
-		excl := map[int64]bool{}
-		for _, g := range m.edgeGuards(m.H.Preds[i], m.H) {
-			for b, cs := range mk.cases {
-				if m.x(c18Last(b).(*ssa.If).Cond) == g.cond && g.truth == (cs.succ == 1) {
-					excl[cs.k] = true
-				}
-			}
+		pos := c18BlockPos(m.H.Preds[i])
+		if len(sim.back[i]) == 0 {
+			c.Ok(rule, "no-capture-backedge", pos, "the only way round the loop without a capture is not taken for any value the marker can hold")
+			continue
 		}
-		dead := len(seen) > 0
-		for k := range seen {
-			dead = dead && excl[k]
+		for k := range sim.back[i] {
+			idle[k] = pos
 		}
-		if pos := c18BlockPos(m.H.Preds[i]); dead {
-			c.Ok(rule, "no-capture-backedge", pos, "the only way round the loop without a capture requires a marker value that is never stored")
+		viol("no-capture-backedge", pos, "the loop can continue with sides and parity flipped although no capture was made")
+	}
+	first := map[int64]bool{}
+	for _, st := range mk.stores {
+		if first[st.c] {
+			continue
+		}
+		first[st.c] = true
+		if _, bad := idle[st.c]; bad {
+			viol("marker:"+m.pcs[st.c], st.pos, "marker value %s is stored but the dispatch has no capture chain for it: the iteration flips sides and parity without any capture", m.pcs[st.c])
 		} else {
-			viol("no-capture-backedge", pos, "the loop can continue with sides and parity flipped although no capture was made")
+			c.Ok(rule, "marker:"+m.pcs[st.c], st.pos, "with marker value %s every iteration ends in a capture or a verdict; the value stands for exhaustion of %s", m.pcs[st.c], m.kindSet(exh[st.c]))
 		}
 	}
 }
